@@ -1,0 +1,7 @@
+//go:build !verif
+
+package actionlint
+
+// verifPoint marks a schedule point for the verification harness. It does nothing unless the
+// package is built with the `verif` build tag.
+func verifPoint(kind string, group interface{}, exec *cmdExecution, err error) {}
